@@ -569,3 +569,237 @@ Qed.
 Lemma int_cmp_exact_proof fa a fb b : in_domain fa a -> in_domain fb b ->
   model_compare fa a fb b = Ok (exact_cmp a b).
 Proof. intros (Hda & Hea & Hka) (Hdb & Heb & Hkb). apply case_compare_spec; assumption. Qed.
+
+(* ---- integer / float comparison is exact (pure integer reasoning about round-to-nearest-even) ---- *)
+
+(* the doubles around an integer n >= 2^53 lie on the grid of spacing 2^k; nothing strictly inside a cell *)
+Lemma grid_nonneg_exp m e q k : Z.abs m < 2 ^ 53 -> 0 <= e -> 1 <= k -> 2 ^ 52 <= q ->
+  m * 2 ^ e <= q * 2 ^ k \/ (q + 1) * 2 ^ k <= m * 2 ^ e.
+Proof.
+  intros Hm He Hk Hq.
+  destruct (Z_lt_le_dec e k) as [Hlt|Hge].
+  - left. assert (H1 : 2 ^ e <= 2 ^ (k - 1)) by (apply Z.pow_le_mono_r; lia).
+    assert (H2 : 2 ^ k = 2 * 2 ^ (k - 1)).
+    { replace k with (1 + (k - 1)) at 1 by lia. rewrite Z.pow_add_r by lia. reflexivity. }
+    assert (H3 : 0 < 2 ^ e) by (apply Z.pow_pos_nonneg; lia).
+    assert (H4 : 0 < 2 ^ (k - 1)) by (apply Z.pow_pos_nonneg; lia).
+    remember (2 ^ e) as A. remember (2 ^ (k - 1)) as B. rewrite H2.
+    assert (m * A <= (2 ^ 53 - 1) * A) by nia.
+    assert ((2 ^ 53 - 1) * A <= (2 ^ 53 - 1) * B) by nia.
+    assert (2 ^ 53 * B <= q * (2 * B)) by nia. lia.
+  - assert (H2 : 2 ^ e = 2 ^ (e - k) * 2 ^ k).
+    { rewrite <- Z.pow_add_r by lia. f_equal. lia. }
+    assert (H3 : 0 < 2 ^ k) by (apply Z.pow_pos_nonneg; lia).
+    rewrite H2. remember (2 ^ k) as P. remember (m * 2 ^ (e - k)) as t.
+    replace (m * (2 ^ (e - k) * P)) with (t * P) by (subst t; ring).
+    destruct (Z_le_gt_dec t q); [left|right]; nia.
+Qed.
+
+Lemma grid_neg_exp m d q k : Z.abs m < 2 ^ 53 -> 2 <= d -> 1 <= k -> 2 ^ 52 <= q ->
+  m <= q * 2 ^ k * d.
+Proof.
+  intros Hm Hd Hk Hq.
+  assert (H3 : 2 <= 2 ^ k).
+  { replace 2 with (2 ^ 1) at 1 by reflexivity. apply Z.pow_le_mono_r; lia. }
+  remember (2 ^ k) as P. assert (2 ^ 52 * 2 * 2 <= q * P * d) by nia. lia.
+Qed.
+
+Lemma rne_nat_small n : n < 2 ^ 53 -> rne_nat n = n.
+Proof. intros H. unfold rne_nat. destruct (n <? 2 ^ 53) eqn:E; [reflexivity|lia]. Qed.
+
+Lemma rne_nat_cases n : 2 ^ 53 <= n ->
+  exists q k r, 1 <= k /\ 2 ^ 52 <= q /\ n = q * 2 ^ k + r /\ 0 <= r < 2 ^ k /\
+    (rne_nat n = q * 2 ^ k \/ (rne_nat n = (q + 1) * 2 ^ k /\ 0 < r)).
+Proof.
+  intros Hn. unfold rne_nat. destruct (n <? 2 ^ 53) eqn:E; [lia|]. clear E.
+  assert (Hl : 53 <= Z.log2 n).
+  { replace 53 with (Z.log2 (2 ^ 53)) by (apply Z.log2_pow2; lia). apply Z.log2_le_mono. exact Hn. }
+  assert (Hn0 : 0 < n) by (assert (0 < 2 ^ 53) by (apply Z.pow_pos_nonneg; lia); lia).
+  destruct (Z.log2_spec n Hn0) as [Hlo _].
+  set (k := Z.log2 n - 52) in *.
+  assert (Hk : 1 <= k) by (unfold k; lia).
+  assert (HP : 0 < 2 ^ k) by (apply Z.pow_pos_nonneg; lia).
+  exists (n / 2 ^ k), k, (n mod 2 ^ k).
+  split; [exact Hk|]. split.
+  { apply Z.div_le_lower_bound; [exact HP|]. rewrite <- Z.pow_add_r by lia. replace (k + 52) with (Z.log2 n) by (unfold k; lia). exact Hlo. }
+  split. { rewrite Z.mul_comm. apply Z.div_mod. lia. }
+  split. { apply Z.mod_pos_bound. exact HP. }
+  assert (Hh : 0 < 2 ^ (k - 1)) by (apply Z.pow_pos_nonneg; lia).
+  destruct ((2 ^ (k - 1) <? n mod 2 ^ k) || ((n mod 2 ^ k =? 2 ^ (k - 1)) && Z.odd (n / 2 ^ k))) eqn:E.
+  - right. split; [reflexivity|]. lia.
+  - left. reflexivity.
+Qed.
+
+Ltac cmp_solve :=
+  repeat match goal with
+         | |- context [?a ?= ?b] => destruct (Z.compare_spec a b)
+         | H : context [?a ?= ?b] |- _ => destruct (Z.compare_spec a b)
+         end; try reflexivity; try congruence; try lia.
+
+Lemma cmp_fin_rne_nat m e n : Z.abs m < 2 ^ 53 -> 0 <= n ->
+  cmp_fin m e (rne_nat n) <> Eq -> cmp_fin m e (rne_nat n) = cmp_fin m e n.
+Proof.
+  intros Hm Hn.
+  destruct (Z_lt_le_dec n (2 ^ 53)) as [Hs|Hb]; [rewrite rne_nat_small by exact Hs; reflexivity|].
+  destruct (rne_nat_cases n Hb) as (q & k & r & Hk & Hq & Hnq & Hr & HR).
+  unfold cmp_fin. destruct (0 <=? e) eqn:Ee.
+  - pose proof (grid_nonneg_exp m e q k Hm ltac:(lia) Hk Hq) as Hg.
+    remember (m * 2 ^ e) as V. remember (2 ^ k) as P.
+    destruct HR as [-> | [-> Hr0]]; subst n; intros Hne.
+    + remember (q * P) as L. remember ((q + 1) * P) as U. assert (U = L + P) by (subst; ring). cmp_solve.
+    + remember (q * P) as L. remember ((q + 1) * P) as U. assert (U = L + P) by (subst; ring). cmp_solve.
+  - assert (Hd : 2 <= 2 ^ (- e)).
+    { replace 2 with (2 ^ 1) at 1 by reflexivity. apply Z.pow_le_mono_r; lia. }
+    pose proof (grid_neg_exp m (2 ^ (- e)) q k Hm Hd Hk Hq) as Hg.
+    remember (2 ^ (- e)) as d. remember (2 ^ k) as P.
+    destruct HR as [-> | [-> Hr0]]; subst n; intros Hne.
+    + assert (q * P * d <= (q * P + r) * d) by nia.
+      remember (q * P * d) as L. remember ((q * P + r) * d) as N. cmp_solve.
+    + assert (q * P * d < (q * P + r) * d) by nia. assert (q * P * d < (q + 1) * P * d) by nia.
+      remember (q * P * d) as L. remember ((q * P + r) * d) as N. remember ((q + 1) * P * d) as U. cmp_solve.
+Qed.
+
+Lemma cmp_fin_opp m e n : cmp_fin m e n = CompOpp (cmp_fin (- m) e (- n)).
+Proof.
+  unfold cmp_fin. destruct (0 <=? e).
+  - replace (- m * 2 ^ e) with (- (m * 2 ^ e)) by ring. rewrite Z.compare_opp. rewrite <- Z.compare_antisym. reflexivity.
+  - replace (- n * 2 ^ (- e)) with (- (n * 2 ^ (- e))) by ring. rewrite Z.compare_opp. rewrite <- Z.compare_antisym. reflexivity.
+Qed.
+
+Lemma cmp_fin_rne_int m e z : Z.abs m < 2 ^ 53 ->
+  cmp_fin m e (rne_int z) <> Eq -> cmp_fin m e (rne_int z) = cmp_fin m e z.
+Proof.
+  intros Hm. unfold rne_int. destruct (z <? 0) eqn:E.
+  - rewrite (cmp_fin_opp m e (- rne_nat (- z))), (cmp_fin_opp m e z). rewrite Z.opp_involutive.
+    intros Hne. f_equal. apply cmp_fin_rne_nat; try lia.
+    intros Heq. apply Hne. rewrite Heq. reflexivity.
+  - apply cmp_fin_rne_nat; lia.
+Qed.
+
+(* if the float equals the integer R, comparing it with any integer is comparing R *)
+Lemma cmp_fin_eq m e R n : cmp_fin m e R = Eq -> cmp_fin m e n = (R ?= n).
+Proof.
+  unfold cmp_fin. destruct (0 <=? e) eqn:Ee.
+  - intros H. apply Z.compare_eq in H. rewrite H. reflexivity.
+  - intros H. apply Z.compare_eq in H. rewrite H.
+    assert (0 < 2 ^ (- e)) by (apply Z.pow_pos_nonneg; lia).
+    symmetry. apply Zmult_compare_compat_r. lia.
+Qed.
+
+Lemma rne_nat_repr m e n : Z.abs m < 2 ^ 53 -> 0 <= n -> cmp_fin m e n = Eq -> rne_nat n = n.
+Proof.
+  intros Hm Hn Hc.
+  destruct (Z_lt_le_dec n (2 ^ 53)) as [Hs|Hb]; [apply rne_nat_small; exact Hs|].
+  destruct (rne_nat_cases n Hb) as (q & k & r & Hk & Hq & Hnq & Hr & HR).
+  assert (r = 0).
+  { unfold cmp_fin in Hc. destruct (0 <=? e) eqn:Ee.
+    - apply Z.compare_eq in Hc.
+      pose proof (grid_nonneg_exp m e q k Hm ltac:(lia) Hk Hq) as Hg.
+      remember (2 ^ k) as P. rewrite Hc in Hg. nia.
+    - apply Z.compare_eq in Hc.
+      assert (Hd : 2 <= 2 ^ (- e)).
+      { replace 2 with (2 ^ 1) at 1 by reflexivity. apply Z.pow_le_mono_r; lia. }
+      remember (2 ^ (- e)) as d. assert (2 ^ 53 * 2 <= n * d) by nia. lia. }
+  subst r. destruct HR as [HR | [_ HR]]; [|lia]. rewrite HR. lia.
+Qed.
+
+Lemma rne_int_repr m e z : Z.abs m < 2 ^ 53 -> cmp_fin m e z = Eq -> rne_int z = z.
+Proof.
+  intros Hm Hc. unfold rne_int. destruct (z <? 0) eqn:E.
+  - rewrite (rne_nat_repr (- m) e (- z)); try lia.
+    rewrite cmp_fin_opp in Hc. destruct (cmp_fin (- m) e (- z)); cbn in Hc; congruence.
+  - apply (rne_nat_repr m e z); try lia. exact Hc.
+Qed.
+
+Lemma ty_range w z : fits w z = true -> ty_min w <= z <= ty_max w.
+Proof.
+  destruct w; cbn [fits ty_min ty_max]; unfold in_u64, in_i64, in_u128, in_i128; lia.
+Qed.
+
+Lemma as_f64_exact_some w z R : fits w z = true -> as_f64_exact (VInt w z) = Some R -> R = z.
+Proof.
+  intros Hf. pose proof (ty_range w z Hf) as Hr. unfold as_f64_exact.
+  destruct ((rne_int z <? ty_max w + 1) && (Z.max (ty_min w) (Z.min (ty_max w) (rne_int z)) =? z)) eqn:E; [|discriminate].
+  intros H. inversion H; subst R; clear H.
+  destruct (Z_le_gt_dec (ty_min w) (rne_int z)) as [Hge|Hlt]; [lia|].
+  assert (Hz : z = ty_min w) by lia.
+  exfalso. rewrite Hz in Hlt. destruct w; vm_compute in Hlt; discriminate.
+Qed.
+
+Lemma as_f64_exact_repr w z m e : fits w z = true -> Z.abs m < 2 ^ 53 -> cmp_fin m e z = Eq ->
+  as_f64_exact (VInt w z) = Some z.
+Proof.
+  intros Hf Hm Hc. pose proof (ty_range w z Hf) as Hr. unfold as_f64_exact.
+  rewrite (rne_int_repr m e z Hm Hc).
+  destruct ((z <? ty_max w + 1) && (Z.max (ty_min w) (Z.min (ty_max w) z) =? z)) eqn:E; [reflexivity|lia].
+Qed.
+
+Lemma cmp_float_int_exact w z m e : fits w z = true -> Z.abs m < 2 ^ 53 ->
+  cmp_float_int as_f64_exact (FFin m e) (VInt w z) = Some (cmp_fin m e z).
+Proof.
+  intros Hf Hm. pose proof (ty_range w z Hf) as Hr. unfold cmp_float_int.
+  destruct (as_f64_exact (VInt w z)) as [R|] eqn:Ex.
+  - rewrite (as_f64_exact_some w z R Hf Ex). reflexivity.
+  - destruct (cmp_fin m e (rne_int z)) eqn:Ec.
+    + rewrite (cmp_fin_eq m e _ z Ec).
+      destruct w; cbn [ty_min ty_max] in Hr; unfold i64_min, i64_max, i128_min, i128_max, u64_max, u128_max in Hr.
+      * destruct (rne_int z <? 0) eqn:E1; [f_equal; symmetry; apply Z.compare_lt_iff; lia|].
+        destruct (2 ^ 128 <=? rne_int z) eqn:E2; [f_equal; symmetry; apply Z.compare_gt_iff; lia|reflexivity].
+      * destruct (2 ^ 127 <=? rne_int z) eqn:E2; [f_equal; symmetry; apply Z.compare_gt_iff; lia|reflexivity].
+      * destruct (rne_int z <? 0) eqn:E1; [f_equal; symmetry; apply Z.compare_lt_iff; lia|].
+        destruct (2 ^ 128 <=? rne_int z) eqn:E2; [f_equal; symmetry; apply Z.compare_gt_iff; lia|reflexivity].
+      * destruct (2 ^ 127 <=? rne_int z) eqn:E2; [f_equal; symmetry; apply Z.compare_gt_iff; lia|reflexivity].
+    + rewrite <- Ec. f_equal. apply cmp_fin_rne_int; [exact Hm|rewrite Ec; discriminate].
+    + rewrite <- Ec. f_equal. apply cmp_fin_rne_int; [exact Hm|rewrite Ec; discriminate].
+Qed.
+
+Lemma eq_float_int_exact w z m e : fits w z = true -> Z.abs m < 2 ^ 53 ->
+  eq_float_int as_f64_exact (FFin m e) (VInt w z) = Some (match cmp_fin m e z with Eq => true | _ => false end).
+Proof.
+  intros Hf Hm. unfold eq_float_int.
+  destruct (as_f64_exact (VInt w z)) as [R|] eqn:Ex.
+  - rewrite (as_f64_exact_some w z R Hf Ex). reflexivity.
+  - destruct (cmp_fin m e z) eqn:Ec; try reflexivity.
+    rewrite (as_f64_exact_repr w z m e Hf Hm Ec) in Ex. discriminate.
+Qed.
+
+Definition fin_m (f : f64) : Z := match f with FFin a _ => a | _ => 0 end.
+Lemma decode_mantissa bits m e : decode bits = FFin m e -> Z.abs m < 2 ^ 53.
+Proof.
+  unfold decode.
+  assert (H : 0 <= bits mod 2 ^ 52 < 2 ^ 52) by (apply Z.mod_pos_bound; reflexivity).
+  generalize dependent (bits mod 2 ^ 52). intros mm H.
+  generalize ((bits / 2 ^ 52) mod 2 ^ 11). intros ee.
+  generalize (bits / 2 ^ 63). intros ss.
+  cbv zeta.
+  destruct (ee =? 2047); [destruct (mm =? 0); discriminate|].
+  intros Hd. apply (f_equal fin_m) in Hd. unfold fin_m in Hd. subst m.
+  destruct (ss =? 1); destruct (ee =? 0); lia.
+Qed.
+
+Lemma exact_cmp_rat_cmp_fin m e n :
+  exact_cmp_rat m e n =
+    (match cmp_fin m e n with Lt => true | _ => false end,
+     match cmp_fin m e n with Eq => true | _ => false end,
+     match cmp_fin m e n with Gt => true | _ => false end).
+Proof.
+  unfold exact_cmp_rat, cmp_fin, exact_cmp. destruct (0 <=? e).
+  - destruct (Z.compare_spec (m * 2 ^ e) n); repeat f_equal; lia.
+  - destruct (Z.compare_spec m (n * 2 ^ (- e))); repeat f_equal; lia.
+Qed.
+
+Definition swap_cmp (swap : bool) (t : bool * bool * bool) : bool * bool * bool :=
+  let '(l, q, g) := t in if swap then (g, q, l) else (l, q, g).
+
+Lemma int_float_cmp_exact_proof swap bits fi z m e :
+  in_domain fi z -> decode bits = FFin m e ->
+  model_compare_float as_f64_exact swap bits fi z = Some (Ok (swap_cmp swap (exact_cmp_rat m e z))).
+Proof.
+  intros (Hd & He & Hk) Hdec. pose proof (decode_mantissa bits m e Hdec) as Hm.
+  unfold model_compare_float. rewrite syntax_ok_denotable by assumption. cbn [negb].
+  destruct (operand_spec fi z Hd He Hk) as (v & Hv & Hval & Hok). rewrite Hv, Hdec.
+  destruct v as [w z']. cbn [num_val num_ok] in *. subst z'.
+  rewrite cmp_float_int_exact, eq_float_int_exact by assumption.
+  rewrite exact_cmp_rat_cmp_fin. unfold swap_cmp.
+  destruct swap; destruct (cmp_fin m e z); reflexivity.
+Qed.
